@@ -14,6 +14,7 @@ mod keys;
 mod lifecycle;
 mod model;
 mod verify;
+mod wire;
 
 use serde_json::{json, Value};
 use std::io::{BufRead, Write};
@@ -23,6 +24,7 @@ struct State {
     verify: Option<verify::Ctx>,
     c11: Option<c11::Ctx>,
     life: Option<lifecycle::Ctx>,
+    wire: Option<wire::Ctx>,
 }
 
 fn dispatch(st: &mut State, scn: &Value) -> Value {
@@ -35,6 +37,12 @@ fn dispatch(st: &mut State, scn: &Value) -> Value {
             st.verify.get_or_insert_with(|| verify::Ctx::new(&common::family(), &prop)).run(scn, ev, pin)
         }
         "C20" => c20::run(scn),
+        "WIRE" => match scn["kind"].as_str().unwrap_or("") {
+            "rule" => wire::run_rule(scn),
+            "pred" => wire::run_pred(scn),
+            "stmt" => wire::run_stmt(scn),
+            _ => st.wire.get_or_insert_with(wire::Ctx::new).run_doc(scn),
+        },
         "C12" => if scn["kind"] == "path" { c12::run_path(scn) } else { c12::run_table(scn, &common::family()) },
         "LIFE" => st.life.get_or_insert_with(|| lifecycle::Ctx::new(&common::family())).run(scn),
         "C10" => c10::run(scn, &mut common::rng(10 + scn["i"].as_u64().unwrap_or(0) + 1000003 * std::env::var("ITV_SALT").ok().and_then(|s| s.parse::<u64>().ok()).unwrap_or(0))),
@@ -48,7 +56,7 @@ fn main() {
     let args: Vec<String> = std::env::args().collect();
     let cmd = args.get(1).map(|s| s.as_str()).unwrap_or("");
     common::quiet_panics();
-    let mut st = State { c04: None, verify: None, c11: None, life: None };
+    let mut st = State { c04: None, verify: None, c11: None, life: None, wire: None };
     let stdout = std::io::stdout();
     let mut out = std::io::BufWriter::new(stdout.lock());
     match cmd {
@@ -94,6 +102,7 @@ fn main() {
                     }
                 }
                 "C20" => c20::record(n, &mut out),
+                "C19meta" => writeln!(out, "{}", wire::from_meta_checks(n)).unwrap(),
                 "C09bits" => writeln!(out, "{}", lifecycle::Ctx::new(&common::family()).all_bits(n)).unwrap(),
                 "C10all" => writeln!(out, "{}", c10::all_scalars(n.max(1) as u32)).unwrap(),
                 "C11keyid" => writeln!(out, "{}", c12::keyid_preimages()).unwrap(),
